@@ -521,6 +521,16 @@ impl Run {
                 let m = cw4_group::msg::ExecuteMsg::UpdateMembers { remove, add };
                 call(&mut self.w, |w| w.app.execute_contract(sender, g, &m, &[]))
             }
+            "hook" => {
+                // somebody other than the group tells the multisig that the membership changed
+                let sender = self.w.addr(&by);
+                let ms = self.ms.clone();
+                let who = self.w.addr(&s(&args, "addr")).to_string();
+                // (-1 = no weight: the member was not there before / is removed)
+                let wv = |x: &Value| -> Value { match x.as_i64() { Some(v) if v >= 0 => json!(v), _ => Value::Null } };
+                let m = json!({"member_changed_hook": {"diffs": [{"key": who, "old": wv(&args["old"]), "new": wv(&args["new"])}]}});
+                call(&mut self.w, |w| w.app.execute_contract(sender, ms, &m, &[]))
+            }
             "propose" => {
                 self.nonce += 1;
                 let kind = s(&args, "kind");
@@ -709,6 +719,7 @@ pub fn random_run(rng: &mut Rng, run_no: u64, len: usize, out: &mut Out) {
                 }
                 json!({"act":"group_update","by": if rng.chance(1,8) {"a1"} else {"ga"},"args":{"add":add,"remove":remove}})
             }
+            94 if rng.chance(1, 2) => json!({"act":"hook","by":rng.pick(&["a1","a2","ga","creator"]),"args":{"addr":rng.pick(&USERS),"old":*rng.pick(&[-1i64,1,3]),"new":*rng.pick(&[-1i64,0,5])}}),
             94..=96 => {
                 if run.dep_kind == "cw20" && rng.chance(1, 2) { json!({"act":"dtokfail","by":"env","args":{"on":rng.chance(1,2)}}) }
                 else { json!({"act":"flaky","by":"env","args":{"on":rng.chance(1,2)}}) }
